@@ -355,12 +355,14 @@ func Run(c *sexp.S, out *Out) {
 				continue
 			}
 			seven := 7.0
-			if snaps[k].Variables != nil {
-				snaps[k].Variables["zz_mut"] = variable.Value{Number: &seven}
+			if snaps[k].Variables == nil {
+				snaps[k].Variables = map[string]variable.Value{}
 			}
-			if snaps[k].VisitedNodes != nil {
-				snaps[k].VisitedNodes["zz_mut"] = 9
+			snaps[k].Variables["zz_mut"] = variable.Value{Number: &seven}
+			if snaps[k].VisitedNodes == nil {
+				snaps[k].VisitedNodes = map[string]int{}
 			}
+			snaps[k].VisitedNodes["zz_mut"] = 9
 			out.Put("%s", snapObs(snaps[k]))
 		case "restore":
 			r := runners[a[0].Int()]
@@ -393,6 +395,24 @@ func Run(c *sexp.S, out *Out) {
 				}
 				return "OK"
 			})
+			out.Put("RESTORE %s%s", res, r.state())
+		case "restorenil":
+			// a snapshot the host built itself (say, decoded from a file that omits empty maps): nil maps, a real node
+			r := runners[a[0].Int()]
+			if r == nil {
+				out.Put("NORUNNER")
+				continue
+			}
+			res := guard(func() string {
+				if err := r.dr.RestoreAt(&ysgo.Snapshot{CurrentNode: a[1].GoString()}); err != nil {
+					return "ERR"
+				}
+				return "OK"
+			})
+			r.waiting = 0
+			if res == "OK" {
+				r.ends = 0
+			}
 			out.Put("RESTORE %s%s", res, r.state())
 		case "hset":
 			r := runners[a[0].Int()]
